@@ -6,6 +6,8 @@ import (
 	"fmt"
 
 	"github.com/ja7ad/otp"
+	"github.com/ja7ad/otp/internal/verifrt/fakejs"
+	"github.com/ja7ad/otp/internal/verifwasm"
 	"github.com/ja7ad/otp/verifharness/ev"
 	"github.com/ja7ad/otp/verifharness/irt"
 )
@@ -23,6 +25,13 @@ func init() {
 		fmt.Println()
 		st, ex := irt.Steps(1000, func() { otp.GenerateHOTP("GEZDGNBVGY3TQOJQ", 5, nil) })
 		fmt.Println("steps", st, ex)
+		verifwasm.VerifRegister()
+		v, ok := fakejs.Call("generateHOTP", fakejs.Str("GEZDGNBVGY3TQOJQGEZDGNBVGY3TQOJQ"), fakejs.Num(1), fakejs.Str("6"), fakejs.Str("SHA1"))
+		fmt.Println("wasm-native generateHOTP:", v.String(), ok, fakejs.Names())
+		tr = irt.Traced(func() {
+			fakejs.Call("validateHOTP", fakejs.Str("GEZDGNBVGY3TQOJQGEZDGNBVGY3TQOJQ"), fakejs.Str("287082"), fakejs.Num(0), fakejs.Str("6"), fakejs.Str("SHA1"), fakejs.Num(2))
+		})
+		fmt.Println("wasm-native validate trace:", len(tr))
 		r.Eval(1)
 	})
 }
